@@ -2691,18 +2691,19 @@ class Composite(Runner):
 
                 else:
                     raise exceptions.RallyAssertionError("Requests structure must contain [stream] or [operation-type].")
+            # complete any outstanding streams
+            if streams:
+                streams_timings = await asyncio.gather(*streams)
+                for stream_timings in streams_timings:
+                    timings += stream_timings
         except BaseException:
-            # stop all already created tasks in case of exceptions
+            # stop all already created tasks in case of exceptions and wait until they have ended: their requests belong to this
+            # composite request and must neither continue after it has failed nor be missing from its timing.
             for s in streams:
                 if not s.done():
                     s.cancel()
+            await asyncio.gather(*streams, return_exceptions=True)
             raise
-
-        # complete any outstanding streams
-        if streams:
-            streams_timings = await asyncio.gather(*streams)
-            for stream_timings in streams_timings:
-                timings += stream_timings
         return timings
 
     async def __call__(self, es, params):
